@@ -63,6 +63,8 @@ def gen_case(rng, tier, exact):
         'grad_scale': rng.choice([None, 2.0, 1024.0] if exact else [None, 3.0]),
         'exact': exact,
     }
+    if cfg['grad_scale'] and rng.random() < 0.5:      # dynamic loss scaling: the scale changes between iterations
+        cfg['grad_scale'] = ['table', [rng.choice([2.0, 1024.0, 8.0, 0.5] if exact else [3.0, 0.7, 48.0]) for _ in range(5)]]
     if rng.random() < 0.3:
         cfg['factor_decay'] = ['table', [rng.choice([0.5, 0.75, 1.0] if exact else [0.9, 0.5, 0.7]) for _ in range(12)]]
     n = rng.randint(1, 5 if tier == 'quick' else 9)
@@ -121,6 +123,11 @@ def layer_specs(cfg):
     return specs
 
 
+def kfacrun_scale_at(cfg, ev):
+    from harness import kfacrun
+    return kfacrun.scale_at(cfg, ev)
+
+
 def decay_at(cfg, step):
     d = cfg['factor_decay']
     if isinstance(d, list):
@@ -173,7 +180,7 @@ def run(tier, seed, rng):
                 for li, sp in enumerate(specs):
                     ins = [[nest(x.double().reshape(-1, x.shape[-1])) if sp[0] == 'lin' else nest(x.double()) for x in w.results[r][ev]['in'][li]] for r in range(W)]
                     gos = [[nest(x.double().reshape(-1, x.shape[-1])) if sp[0] == 'lin' else nest(x.double()) for x in w.results[r][ev]['go'][li]] for r in range(W)]
-                    sc = 'none' if not cfg['grad_scale'] else float(cfg['grad_scale']).hex()
+                    sc = 'none' if not cfg['grad_scale'] else float(kfacrun_scale_at(cfg, ev)).hex()
                     if sp[0] == 'lin':
                         margs.append(('factor_update', [prev[li][0], float(alpha).hex(), ['lin_a', sp[1], sp[3]], ins]))
                         margs.append(('factor_update', [prev[li][1], float(alpha).hex(), ['lin_g', sp[2], sc], gos]))
@@ -209,7 +216,7 @@ def run(tier, seed, rng):
             step += 1
         cov.add(case, nupd >= 2 and (W > 1 or cfg['accumulation_steps'] > 1), sample_cap=2)
         cov.count('stream', 'exact' if exact else 'general'); cov.count('W', W); cov.count('accumulation', cfg['accumulation_steps'])
-        cov.count('hook', cfg['update_factors_in_hook']); cov.count('scale', cfg['grad_scale']); cov.count('updates', nupd)
+        cov.count('hook', cfg['update_factors_in_hook']); cov.count('scale', 'dynamic' if isinstance(cfg['grad_scale'], list) else cfg['grad_scale']); cov.count('updates', nupd)
         if probs or diffs:
             # oracle independent of the model: recompute the recurrence in numpy float64 from the recorded micro-batches
             failures.append(Failure(what='; '.join((probs + diffs)[:3])[:500], case=case, impl=(probs + diffs)[:10], model='Factor.factor_update chain',
